@@ -40,3 +40,61 @@ def generate():
 
 if __name__ == "__main__":
     print(generate())
+
+
+# ------------------------------------------------------------------------------------------------------------
+# Gen/KTSwitch.v - the thermal direction switch  branch_pit[:, FROM_NODE_T_SWITCHED] = branch_pit[:, MDOTINIT] < c
+# (pipeflow.py) and the column arithmetic of get_from_nodes_corrected / get_to_nodes_corrected (pf/internals_toolbox.py).
+# Fail-closed: any other shape of these statements raises TranslateError.
+def generate_tswitch():
+    import ast
+    from fractions import Fraction
+    src = open(os.path.join(kernels.src_root(), "pipeflow.py")).read()
+    tree = ast.parse(src)
+    found = []
+    for node in ast.walk(tree):
+        if isinstance(node, ast.Assign) and len(node.targets) == 1 and isinstance(node.targets[0], ast.Subscript):
+            t = node.targets[0]
+            if "FROM_NODE_T_SWITCHED" in ast.dump(t.slice):
+                found.append(node)
+    if len(found) != 1:
+        raise kernels.TranslateError("expected exactly one assignment to FROM_NODE_T_SWITCHED in pipeflow.py, found %d"
+                                     % len(found))
+    v = found[0].value
+    ok = (isinstance(v, ast.Compare) and len(v.ops) == 1 and isinstance(v.ops[0], ast.Lt)
+          and isinstance(v.left, ast.Subscript) and ast.unparse(v.left).replace(" ", "") == "branch_pit[:,MDOTINIT]"
+          and ast.unparse(found[0].targets[0]).replace(" ", "") == "branch_pit[:,FROM_NODE_T_SWITCHED]")
+    c = v.comparators[0] if ok else None
+    if ok and isinstance(c, ast.UnaryOp) and isinstance(c.op, ast.USub) and isinstance(c.operand, ast.Constant):
+        thr = -Fraction(ast.get_source_segment(src, c.operand))
+    elif ok and isinstance(c, ast.Constant):
+        thr = Fraction(ast.get_source_segment(src, c))
+    else:
+        raise kernels.TranslateError("FROM_NODE_T_SWITCHED is not `branch_pit[:, MDOTINIT] < <constant>`: %s"
+                                     % ast.unparse(found[0]))
+    # get_from_nodes_corrected: column = switch * (TO_NODE - FROM_NODE) + FROM_NODE ; get_to_nodes_corrected: mirrored
+    it = open(os.path.join(kernels.src_root(), "pf", "internals_toolbox.py")).read()
+    itree = ast.parse(it)
+    want = {"get_from_nodes_corrected": "switch_from_to_col.astype(np.int32)*(TO_NODE-FROM_NODE)+FROM_NODE",
+            "get_to_nodes_corrected": "switch_from_to_col.astype(np.int32)*(FROM_NODE-TO_NODE)+TO_NODE"}
+    for f in itree.body:
+        if isinstance(f, ast.FunctionDef) and f.name in want:
+            cols = [ast.unparse(s.value).replace(" ", "") for s in f.body if isinstance(s, ast.Assign)
+                    and isinstance(s.targets[0], ast.Name) and s.targets[0].id.endswith("_node_col")]
+            dflt = [ast.unparse(s).replace(" ", "").replace("\n", "") for s in f.body if isinstance(s, ast.If)]
+            if cols != [want[f.name]] or dflt != ["ifswitch_from_to_colisNone:switch_from_to_col=branch_pit[:,FROM_NODE_T_SWITCHED]"]:
+                raise kernels.TranslateError("%s has an unexpected body: %r %r" % (f.name, cols, dflt))
+            want[f.name] = None
+    if any(v is not None for v in want.values()):
+        raise kernels.TranslateError("get_from/to_nodes_corrected not found")
+    num, den = thr.numerator, thr.denominator
+    lit = "(%s / %d)" % (("(- %d)" % -num) if num < 0 else str(num), den)
+    return ("(* GENERATED by tools/translate/c09_kernels.py from pipeflow.py and pf/internals_toolbox.py - do not edit. *)\n"
+            "From Coq Require Import Reals Bool.\nFrom PP Require Import Kern.RBool.\nOpen Scope R_scope.\n"
+            "(* branch_pit[:, FROM_NODE_T_SWITCHED] = branch_pit[:, MDOTINIT] < %s *)\n"
+            "Definition t_switch_threshold : R := %s.\n"
+            "Definition t_switched (m : R) : bool := Rltb m t_switch_threshold.\n"
+            "(* get_from_nodes_corrected / get_to_nodes_corrected: the node column read for a branch *)\n"
+            "Definition corrected_from {X : Type} (sw : bool) (from_node to_node : X) : X := if sw then to_node else from_node.\n"
+            "Definition corrected_to {X : Type} (sw : bool) (from_node to_node : X) : X := if sw then from_node else to_node.\n"
+            % (ast.unparse(c), lit))
